@@ -138,6 +138,8 @@ ATOM_WIT = {
     'NL': [('c', 'list', ()), ('c', 'list', (V('1'), V('0')))],
     'TL': [('c', 'list', ()), ('c', 'list', (V('1'), V('0')))],
     'TU': [V('1'), V("'a'")],
+    'NF': [V('1.5'), V('0.0')],
+    'TF': [V('1.5'), V('0.0')],
     'T': [V('1'), V("'a'"), NW('K')],
     'TB': [V('1'), V('True')],
     'TC': [V('1'), V("'a'")],
@@ -337,6 +339,8 @@ class Gen:
             out = list(self.wit(t[1]))
             out += [V('1'), V('0'), V('2'), V("'a'"), V("''"), V('True'), NW('K')]
             return out
+        if tag == 'annm':
+            return list(self.wit(t[1]))
         if tag == 'g':
             if t[1] == 'GL':
                 ws = _spread(self.wit(t[2]), self.m)
@@ -467,6 +471,8 @@ class Gen:
             return [('cls', n) for n in CLS] + [V('1'), NW('K')]
         if tag == 'ann':
             return list(self.wit(t[1])) + [V('1'), V('0'), V('2'), V("'a'"), V("''"), V('True'), NW('K')]
+        if tag == 'annm':
+            return list(self._bad_raw(t[1]))
         if tag == 'g':
             if t[1] == 'GL':
                 bs = self._bad_items(t[2], 3)
@@ -536,6 +542,8 @@ def _mixed(self, t, nest=True):
         for m in t[2:]:
             out += self.mixed(m, nest=False)[:6]
         return out
+    elif tag in ('ann', 'annm'):
+        return self.mixed(t[1], nest)
     elif tag == 'tf':
         per = [_spread(self.wit(m), 1) for m in t[2:]]
         if all(per):
